@@ -546,10 +546,19 @@ def check_C18(run):
                "compares its full observation with the one taken just before Backup (every index mode x RWMode)")
 
 
+def check_C02(run):
+    check_hist_generic(run, [("sparse", "sparse", 120, 5000, RULE_HIST + "; profile sparse: HintBPTSparseIdxMode, one bucket, 12 keys with "
+                              "shared prefixes, segments of 150-350 bytes (most keys live in sealed segments reached through the "
+                              "on-disk index files), Put/PutWithTimestamp/Delete/TTL, reopens; reads Get/GetAll/RangeScan/PrefixScan "
+                              "(large limit); the model is run with RAM-mode semantics, i.e. sparse results must equal RAM results"),
+                             ("sparse2", "sparse2", 50, 2500, RULE_HIST + "; profile sparse2: 30 keys, 45 small transactions, segments "
+                              "of 600-1500 bytes (on-disk key tree and transaction-id tree with inner nodes)")])
+
+
 CHECKS = {
     "C21": check_C21, "C01": check_C01, "C03": check_C03, "C04": check_C04, "C05": check_C05, "C06": check_C06,
     "C07": check_C07, "C08": check_C08, "C12": check_C12, "C13": check_C13,
-    "C15": check_C15, "C16": check_C16, "C14": check_C14, "C17": check_C17, "C18": check_C18,
+    "C02": check_C02, "C15": check_C15, "C16": check_C16, "C14": check_C14, "C17": check_C17, "C18": check_C18,
     "C09": check_C09, "C10": check_C10, "C11": check_C11, "C19": check_C19, "C20": check_C20, "C22": check_C22,
 }
 
